@@ -10,25 +10,36 @@ if ! cargo +nightly fuzz build --sanitizer none --fuzz-dir /verif/fuzz $tgt >/ve
   echo "FUZZ-BUILD-FAILED: see /verif/fuzz/build-$tgt.log"; exit 2
 fi
 bin=/verif/fuzz/target/x86_64-unknown-linux-gnu/release/$tgt
-work=/verif/fuzz/corpus-work/$tgt; art=/verif/fuzz/artifacts/$tgt
+tag=$tgt; maxlen=2048
+if [ "$tgt" = "fz_hist" ]; then
+  # one binary for all session-level history checks; the property selects decoder and oracle
+  export FZ_PROP=$id; tag=$tgt-$id; maxlen=400
+fi
+work=/verif/fuzz/corpus-work/$tag; art=/verif/fuzz/artifacts/$tag
 rm -rf $work $art; mkdir -p $work $art
-cp /verif/corpus/fuzz/$tgt/* $work/ 2>/dev/null
+cp /verif/corpus/fuzz/$tag/* $work/ 2>/dev/null
 jobs=8
 per=$((runs / jobs))
 pids=()
 for j in $(seq 1 $jobs); do
   mkdir -p $work/j$j; cp $work/* $work/j$j/ 2>/dev/null
-  ( cd /verif && $bin $work/j$j -runs=$per -seed=$((seed * 100 + j)) -len_control=0 -max_len=2048 -artifact_prefix=$art/ -print_final_stats=1 >$art/log-$j.txt 2>&1 ) &
+  ( cd /verif && $bin $work/j$j -runs=$per -seed=$((seed * 100 + j)) -len_control=0 -max_len=$maxlen -artifact_prefix=$art/ -print_final_stats=1 >$art/log-$j.txt 2>&1 ) &
   pids+=($!)
 done
 fail=0
 for p in "${pids[@]}"; do wait $p || fail=1; done
 execs=$(grep -h "stat::number_of_executed_units" $art/log-*.txt | awk '{s+=$2} END {print s+0}')
-echo "FUZZ target=$tgt executions=$execs jobs=$jobs"
+echo "FUZZ target=$tag executions=$execs jobs=$jobs"
 crash=$(ls $art | grep -E "^(crash|oom|timeout)-" | head -1)
 if [ -n "$crash" ]; then
   mkdir -p /verif/replays
   out=/verif/replays/$id-fuzz-$tgt-$seed.json
+  rf=$(grep -h "^REPLAY-FILE " $art/log-*.txt | head -1 | cut -d' ' -f2)
+  if [ -n "$rf" ] && [ -f "$rf" ]; then
+    grep -h "ORACLE-VIOLATION" $art/log-*.txt | head -2 | cut -c1-600
+    echo "VIOLATION property=$id replay=$rf"
+    exit 1
+  fi
   python3 - "$art/$crash" "$id" "$sub" "$out" <<'PY'
 import sys, json
 data = open(sys.argv[1], 'rb').read()
@@ -39,7 +50,8 @@ PY
   exit 1
 fi
 # record in the evidence file
-python3 - "$id" "$tgt" "$execs" <<'PY'
+rm -rf /verif/work/fuzz-$id-* 2>/dev/null
+python3 - "$id" "$tag" "$execs" <<'PY'
 import sys, json
 p = f"/verif/evidence/{sys.argv[1]}.json"
 try:
